@@ -48,6 +48,131 @@ theorem spec_one_child {ty : ElemTy} {i : Recipe} {α : Type} {f : Spec → Exce
   | error e => simp [hi] at h
   | ok w => exact ⟨w, rfl, by simpa [hi] using h⟩
 
+/-- the length a constructible tree advertises is the tree's length (no positivity needed) -/
+theorem spec_len_eq (ty : ElemTy) (t : Recipe) : ∀ (s : Spec), t.spec ty = .ok s → s.len = t.len := by
+  induction t with
+  | dft n => intro s h; simp only [Recipe.spec, Except.ok.injEq] at h; subst h; rfl
+  | bfly n => intro s h; simp only [Recipe.spec, Except.ok.injEq] at h; subst h; rfl
+  | primeBfly n => intro s h; simp only [Recipe.spec, Except.ok.injEq] at h; subst h; rfl
+  | avxBfly n => intro s h; simp only [Recipe.spec, Except.ok.injEq] at h; subst h; rfl
+  | mixedRadix l r ihl ihr =>
+    intro s h
+    simp only [Recipe.spec] at h
+    obtain ⟨w, hh, hl, hr, h⟩ := spec_two_children h
+    simp only [Except.ok.injEq] at h
+    subst h
+    simp only [Recipe.len, ← ihl w hl, ← ihr hh hr]
+  | mixedRadixSmall l r ihl ihr =>
+    intro s h
+    simp only [Recipe.spec] at h
+    obtain ⟨w, hh, hl, hr, h⟩ := spec_two_children h
+    split at h
+    · simp at h
+    · simp only [Except.ok.injEq] at h
+      subst h
+      simp only [Recipe.len, ← ihl w hl, ← ihr hh hr]
+  | goodThomas l r ihl ihr =>
+    intro s h
+    simp only [Recipe.spec] at h
+    obtain ⟨a, b, hl, hr, h⟩ := spec_two_children h
+    by_cases hg : Nat.gcd a.len b.len = 1
+    · have hlen : s.len = a.len * b.len := by
+        by_cases hsw : a.len > b.len
+        · simp [hg, hsw] at h; rw [← h]; exact Nat.mul_comm _ _
+        · simp [hg, hsw] at h; rw [← h]
+      simp only [Recipe.len, hlen, ← ihl a hl, ← ihr b hr]
+    · simp [hg] at h
+  | goodThomasSmall l r ihl ihr =>
+    intro s h
+    simp only [Recipe.spec] at h
+    obtain ⟨w, hh, hl, hr, h⟩ := spec_two_children h
+    split at h
+    · simp at h
+    · split at h
+      · simp at h
+      · simp only [Except.ok.injEq] at h
+        subst h
+        simp only [Recipe.len, ← ihl w hl, ← ihr hh hr]
+  | raders i ih =>
+    intro s h
+    simp only [Recipe.spec] at h
+    obtain ⟨inner, hi, h⟩ := spec_one_child h
+    split at h
+    · simp at h
+    · simp only [Except.ok.injEq] at h
+      subst h
+      simp only [Recipe.len, ← ih inner hi]
+  | avxRaders i ih =>
+    intro s h
+    simp only [Recipe.spec] at h
+    obtain ⟨inner, hi, h⟩ := spec_one_child h
+    split at h
+    · simp at h
+    · simp only [Except.ok.injEq] at h
+      subst h
+      simp only [Recipe.len, ← ih inner hi]
+  | bluesteins n i ih =>
+    intro s h
+    simp only [Recipe.spec] at h
+    obtain ⟨inner, hi, h⟩ := spec_one_child h
+    split at h
+    · simp at h
+    · split at h
+      · simp at h
+      · simp only [Except.ok.injEq] at h
+        subst h
+        rfl
+  | avxBluesteins n i ih =>
+    intro s h
+    simp only [Recipe.spec] at h
+    obtain ⟨inner, hi, h⟩ := spec_one_child h
+    split at h
+    · simp at h
+    · split at h
+      · simp at h
+      · split at h
+        · simp at h
+        · simp only [Except.ok.injEq] at h
+          subst h
+          rfl
+  | radixN fs b ih =>
+    intro s h
+    simp only [Recipe.spec] at h
+    obtain ⟨base, hb, h⟩ := spec_one_child h
+    simp only [Except.ok.injEq] at h
+    subst h
+    simp only [Recipe.len, ← ih base hb]
+  | radix4 k b ih =>
+    intro s h
+    simp only [Recipe.spec] at h
+    obtain ⟨base, hb, h⟩ := spec_one_child h
+    simp only [Except.ok.injEq] at h
+    subst h
+    simp only [Recipe.len, ← ih base hb]
+  | radix3 k b ih =>
+    intro s h
+    simp only [Recipe.spec] at h
+    obtain ⟨base, hb, h⟩ := spec_one_child h
+    simp only [Except.ok.injEq] at h
+    subst h
+    simp only [Recipe.len, ← ih base hb]
+  | sseRadix4 k b ih =>
+    intro s h
+    simp only [Recipe.spec] at h
+    obtain ⟨base, hb, h⟩ := spec_one_child h
+    split at h
+    · simp at h
+    · simp only [Except.ok.injEq] at h
+      subst h
+      simp only [Recipe.len, ← ih base hb]
+  | avxMixedRadix radix i ih =>
+    intro s h
+    simp only [Recipe.spec] at h
+    obtain ⟨inner, hi, h⟩ := spec_one_child h
+    simp only [Except.ok.injEq] at h
+    subst h
+    simp only [Recipe.len, ← ih inner hi, Nat.mul_comm]
+
 theorem good_of_spec_aux (ty : ElemTy) (t : Recipe) : ∀ (s : Spec), t.spec ty = .ok s → 0 < s.len →
     t.Good (fun n => 0 < n) ∧ s.len = t.len := by
   induction t with
@@ -615,21 +740,245 @@ theorem avxPlanAndConstruct_hit (ty : ElemTy) (avx2 : Bool) (fuel : Nat) (c : In
   rw [avxPlanAndConstruct]
   simp only [avxPlanFft, hc, if_true, AvxPlan.cached, h, avxWrapChain]
 
+/-! ### AVX: a Rader base is only planned for a prime -/
+
+theorem avxBaseOther_raders (ty : ElemTy) (avx2 : Bool) (len other : Nat) (p : AvxPlan) (n : Nat)
+    (hp : avxBaseOther ty avx2 len other = .ok p) (hb : p.base = .raders n) : isPrimeNat n = true := by
+  unfold avxBaseOther at hp
+  split at hp
+  · injection hp with hp; subst hp
+    simp [AvxPlan.butterfly, AvxPlan.mk'] at hb
+  · simp only at hp
+    split at hp
+    · rename_i h
+      injection hp with hp; subst hp
+      simp only [AvxPlan.mk', AvxBase.raders.injEq] at hb
+      subst hb; exact h.1
+    · split at hp
+      · injection hp with hp; subst hp; simp [AvxPlan.mk'] at hb
+      · simp at hp
+
+theorem avxPlanBase_raders (ty : ElemTy) (avx2 : Bool) (len : Nat) (f : PartialFactors) (p : AvxPlan) (n : Nat)
+    (hp : avxPlanBase ty avx2 len f = .ok p) (hb : p.base = .raders n) : isPrimeNat n = true := by
+  unfold avxPlanBase at hp
+  split at hp
+  · exact avxBaseOther_raders _ _ _ _ _ _ hp hb
+  · split at hp
+    · injection hp with hp; subst hp
+      simp [AvxPlan.butterfly, AvxPlan.mk'] at hb
+    · simp only at hp
+      split at hp
+      · injection hp with hp; subst hp
+        simp [AvxPlan.butterfly, AvxPlan.mk'] at hb
+      · split at hp
+        · rename_i q hq
+          injection hp with hp; subst hp
+          obtain ⟨b', hb', _⟩ := avxHardcoded_bfly _ _ _ hq
+          rw [hb'] at hb; cases hb
+        · split at hp
+          · injection hp with hp; subst hp
+            simp [AvxPlan.butterfly, AvxPlan.mk'] at hb
+          · simp at hp
+
+theorem avxPlanFft_raders_prime (ty : ElemTy) (avx2 : Bool) (cached : Nat → Bool) (len : Nat) (p : AvxPlan) (n : Nat)
+    (hp : avxPlanFft ty avx2 cached len = .ok p) (hb : p.base = .raders n) : isPrimeNat n = true := by
+  unfold avxPlanFft at hp
+  split at hp
+  · injection hp with hp; subst hp; simp [AvxPlan.cached] at hb
+  · split at hp
+    · injection hp with hp; subst hp
+      simp [AvxPlan.butterfly, AvxPlan.mk'] at hb
+    · simp only at hp
+      cases hbase : avxPlanBase ty avx2 len (PartialFactors.compute len) with
+      | error e => simp [hbase] at hp
+      | ok base =>
+        simp only [hbase] at hp
+        split at hp
+        · simp at hp
+        · rename_i q hq
+          injection hp with hp; subst hp
+          have hqb : q.base = base.base := by
+            split at hq
+            · injection hq with hq; subst hq; rfl
+            · split at hq
+              · simp at hq
+              · exact avxPlanMixedRadix_base _ _ _ hq
+          rcases avxReplan_base cached q with h1 | ⟨n, h1⟩
+          · rw [h1, hqb] at hb
+            exact avxPlanBase_raders _ _ _ _ _ _ hbase hb
+          · rw [h1] at hb; simp at hb
+
+/-! ### AVX: the full invariant (every entry filed under its length *and* constructible) -/
+
+def CacheInvFull (ty : ElemTy) (c : InstCache) : Prop := ∀ e ∈ c, e.2.len = e.1 ∧ e.2.Constructible ty
+
+theorem CacheInvFull.nil (ty : ElemTy) : CacheInvFull ty [] := by intro e he; simp at he
+
+theorem CacheInvFull.toLen {ty : ElemTy} {c : InstCache} (h : CacheInvFull ty c) : CacheInv c :=
+  fun e he => (h e he).1
+
+theorem InstCache.mem_of_get? {c : InstCache} {n : Nat} {r : Recipe} (hg : c.get? n = some r) :
+    ∃ k, (k, r) ∈ c := by
+  unfold InstCache.get? at hg
+  cases hf : c.find? (fun e => e.1 = n) with
+  | none => rw [hf] at hg; simp at hg
+  | some e =>
+    rw [hf] at hg
+    simp only [Option.map_some, Option.some.injEq] at hg
+    exact ⟨e.1, by rw [← hg]; exact List.mem_of_find?_eq_some hf⟩
+
+theorem CacheInvFull.toSpec {ty : ElemTy} {c : InstCache} (h : CacheInvFull ty c) : CacheInvSpec ty c := by
+  intro k t hg
+  obtain ⟨k', hm⟩ := InstCache.mem_of_get? hg
+  exact ⟨h.toLen.get hg, (h _ hm).2⟩
+
+theorem CacheInvFull.insert {ty : ElemTy} {c : InstCache} (h : CacheInvFull ty c) (r : Recipe)
+    (hr : r.Constructible ty) : CacheInvFull ty (c.insert r) := by
+  intro e he
+  simp only [InstCache.insert, List.mem_cons, List.mem_filter] at he
+  rcases he with rfl | ⟨he, _⟩
+  · exact ⟨rfl, hr⟩
+  · exact h e he
+
+theorem avxMixedRadix_constructible {ty : ElemTy} {fft : Recipe} (h : fft.Constructible ty) (r : Nat) :
+    (Recipe.avxMixedRadix r fft).Constructible ty := by
+  obtain ⟨s, hs⟩ := h
+  exact ⟨_, by simp only [Recipe.spec, hs]; rfl⟩
+
+theorem avxWrapChain_full {ty : ElemTy} : ∀ (rs : List Nat) (fft : Recipe) (c : InstCache) (t : Recipe)
+    (c' : InstCache), CacheInvFull ty c → fft.Constructible ty → avxWrapChain rs fft c = .ok (t, c') →
+    t.len = fft.len * rs.prod ∧ t.Constructible ty ∧ CacheInvFull ty c' := by
+  intro rs
+  induction rs with
+  | nil =>
+    intro fft c t c' hc hf h
+    simp only [avxWrapChain] at h
+    cases h
+    exact ⟨by simp, hf, hc⟩
+  | cons x rs ih =>
+    intro fft c t c' hc hf h
+    rw [avxWrapChain] at h
+    split at h
+    · have hf' := avxMixedRadix_constructible hf x
+      obtain ⟨h1, h2, h3⟩ := ih _ _ t c' (hc.insert _ hf') hf' h
+      refine ⟨?_, h2, h3⟩
+      rw [h1]; simp only [Recipe.len, List.prod_cons]; ring
+    · cases h
+
+theorem avxConstructButterfly_constructible {ty : ElemTy} {n : Nat} {r : Recipe}
+    (h : avxConstructButterfly ty n = .ok r) : r.Constructible ty := by
+  unfold avxConstructButterfly at h
+  split at h
+  · cases h; exact ⟨_, by simp only [Recipe.spec]; rfl⟩
+  · split at h
+    · cases h; exact ⟨_, by simp only [Recipe.spec]; rfl⟩
+    · split at h
+      · cases h; exact ⟨_, by simp only [Recipe.spec]; rfl⟩
+      · cases h
+
+theorem radersAsserts_of_prime {n : Nat} (hp : isPrimeNat n = true) : radersAsserts n = .ok () := by
+  have hP := (isPrimeNat_iff n).1 hp
+  have hr := primitiveRoot_isSome n hP
+  unfold radersAsserts
+  rw [if_neg (by simp [hp])]
+  cases hg : primitiveRoot n with
+  | none => rw [hg] at hr; cases hr
+  | some g => rfl
+
+theorem raders_constructible {ty : ElemTy} {inner : Recipe} (hi : inner.Constructible ty)
+    (hp : isPrimeNat (inner.len + 1) = true) (avx2 : Bool) :
+    (if avx2 then Recipe.avxRaders inner else Recipe.raders inner).Constructible ty := by
+  obtain ⟨s, hs⟩ := hi
+  have hl := spec_len_eq ty inner s hs
+  have ha := radersAsserts_of_prime hp
+  rw [← hl] at ha
+  cases avx2
+  · exact ⟨_, by simp only [Bool.false_eq_true, if_false, Recipe.spec, hs, ha]; rfl⟩
+  · exact ⟨_, by simp only [if_true, Recipe.spec, hs, ha]; rfl⟩
+
+theorem avxBluesteins_constructible {ty : ElemTy} {inner : Recipe} {n : Nat} (hi : inner.Constructible ty)
+    (hn : 1 < n) (hm : 2 * n - 1 ≤ inner.len) (h4 : inner.len % 4 = 0) :
+    (Recipe.avxBluesteins n inner).Constructible ty := by
+  obtain ⟨s, hs⟩ := hi
+  have hl := spec_len_eq ty inner s hs
+  have h0 : ¬ n = 0 := by omega
+  have h1 : n * 2 - 1 ≤ s.len := by omega
+  have h2 : s.len % complexPerVectorAvx ty = 0 := by
+    cases ty <;> simp only [complexPerVectorAvx] <;> omega
+  exact ⟨_, by simp only [Recipe.spec, hs, h0, h1, h2, if_false, not_true_eq_false, ne_eq]; rfl⟩
+
+/-- `plan_and_construct_fft` from a cache satisfying the full invariant: whatever the fuel, a successful run returns a
+constructible instance of the requested length and a cache satisfying the full invariant again — also for the
+intermediate stages `construct_plan` inserts -/
+theorem avxPlanAndConstruct_full (ty : ElemTy) (avx2 : Bool) : ∀ (fuel : Nat) (c : InstCache) (len : Nat)
+    (t : Recipe) (c' : InstCache), CacheInvFull ty c → avxPlanAndConstruct ty avx2 fuel c len = .ok (t, c') →
+    t.len = len ∧ t.Constructible ty ∧ CacheInvFull ty c' := by
+  intro fuel
+  induction fuel with
+  | zero => intro c len t c' _ h; simp [avxPlanAndConstruct] at h
+  | succ fuel ih =>
+    intro c len t c' hc h
+    obtain ⟨p, hp, hwf, hlen, hk, _⟩ := avxPlanFft_spec ty avx2 c.contains len
+    rw [avxPlanAndConstruct, hp] at h
+    simp only at h
+    have wrap : ∀ (fft : Recipe) (c1 : InstCache), fft.len = p.base.baseLen → fft.Constructible ty →
+        CacheInvFull ty c1 → avxWrapChain p.radixes fft c1 = .ok (t, c') →
+        t.len = len ∧ t.Constructible ty ∧ CacheInvFull ty c' := by
+      intro fft c1 hl hf hc1 hw
+      obtain ⟨h1, h2, h3⟩ := avxWrapChain_full p.radixes fft c1 t c' hc1 hf hw
+      exact ⟨by rw [h1, hl, ← hwf.1, hlen], h2, h3⟩
+    rcases hk with ⟨n, hb, hcn⟩ | ⟨b, hb⟩ | ⟨n, hb, hn1, _⟩ | ⟨n, m, hb, hn1, hm⟩
+    · obtain ⟨r, hr⟩ := InstCache.get_of_contains hcn
+      rw [hb] at wrap h
+      simp only [hr] at h
+      obtain ⟨k, hmem⟩ := InstCache.mem_of_get? hr
+      exact wrap r c (hc.toLen.get hr) (hc _ hmem).2 hc h
+    · obtain ⟨r, hr, hrl⟩ := avxPlanFft_base_constructible ty avx2 c.contains len p b hp hb
+      rw [hb] at wrap h
+      simp only [hr] at h
+      have hrc := avxConstructButterfly_constructible hr
+      exact wrap r _ hrl hrc (hc.insert r hrc) h
+    · have hprime := avxPlanFft_raders_prime ty avx2 c.contains len p n hp hb
+      rw [hb] at wrap h
+      simp only at h
+      cases hrec : avxPlanAndConstruct ty avx2 fuel c (n - 1) with
+      | error e => simp [hrec] at h
+      | ok res =>
+        obtain ⟨inner, c1⟩ := res
+        simp only [hrec] at h
+        obtain ⟨hil, hic, hc1⟩ := ih c (n - 1) inner c1 hc hrec
+        have hn : inner.len + 1 = n := by omega
+        have hrc := raders_constructible (ty := ty) hic (by rw [hn]; exact hprime) avx2
+        refine wrap _ _ ?_ hrc (hc1.insert _ hrc) h
+        cases avx2 <;> simp only [Recipe.len, AvxBase.baseLen, if_true, Bool.false_eq_true, if_false] <;> omega
+    · obtain ⟨m', hm', hge, h4, _⟩ := avxPlanBluesteins_spec ty n hn1
+      rw [hm] at hm'; cases hm'
+      rw [hb] at wrap h
+      simp only at h
+      cases hrec : avxPlanAndConstruct ty avx2 fuel c m with
+      | error e => simp [hrec] at h
+      | ok res =>
+        obtain ⟨inner, c1⟩ := res
+        simp only [hrec] at h
+        obtain ⟨hil, hic, hc1⟩ := ih c m inner c1 hc hrec
+        have hrc := avxBluesteins_constructible (ty := ty) (n := n) hic hn1 (by omega) (by omega)
+        exact wrap _ _ rfl hrc (hc1.insert _ hrc) h
+
 /-! ### the state invariant of each planner kind, and one step -/
 
-/-- the per-kind state invariant: both maps satisfy `CacheInvSpec` (scalar, SSE: every cached instance was
-constructible) or `CacheInv` (AVX: every entry is filed under its length; the returned instance's constructor
-asserts are checked by `planStep` itself) -/
+/-- the per-kind state invariant: both maps satisfy `CacheInvSpec` (scalar, SSE: every instance the cache hands out is
+filed under its length and was constructible) or `CacheInvFull` (AVX: the same for every *entry*, shadowed or not —
+the membership form is what the lemmas of `Proofs/AvxTotal.lean` are stated with) -/
 def StateInv (kind : PlannerKind) (ty : ElemTy) (s : PlannerState) : Prop :=
   match kind with
-  | .avx _ => CacheInv s.fwd ∧ CacheInv s.inv
+  | .avx _ => CacheInvFull ty s.fwd ∧ CacheInvFull ty s.inv
   | _ => CacheInvSpec ty s.fwd ∧ CacheInvSpec ty s.inv
 
 theorem stateInv_empty (kind : PlannerKind) (ty : ElemTy) : StateInv kind ty PlannerState.empty := by
   cases kind
   · exact ⟨cacheInvSpec_nil ty, cacheInvSpec_nil ty⟩
   · exact ⟨cacheInvSpec_nil ty, cacheInvSpec_nil ty⟩
-  · exact ⟨CacheInv.nil, CacheInv.nil⟩
+  · exact ⟨CacheInvFull.nil ty, CacheInvFull.nil ty⟩
 
 /-- one step of the scalar / SSE planner from the recipe it designs -/
 theorem planStep_of_build {ty : ElemTy} {s : PlannerState} {len : Nat} {inverse : Bool} {t r : Recipe}
@@ -676,6 +1025,34 @@ theorem planStep_avx_post {ty : ElemTy} {avx2 : Bool} {s s' : PlannerState} {len
     · exact hi
     · exact h2
 
+/-- AVX with the full invariant: also the intermediate stages `construct_plan` inserts are constructible -/
+theorem planStep_avx_full {ty : ElemTy} {avx2 : Bool} {s s' : PlannerState} {len : Nat} {inverse : Bool}
+    {t : Recipe} (hf : CacheInvFull ty s.fwd) (hi : CacheInvFull ty s.inv)
+    (h : planStep (.avx avx2) ty s len inverse = .ok (t, s')) :
+    t.len = len ∧ t.Constructible ty ∧ CacheInvFull ty s'.fwd ∧ CacheInvFull ty s'.inv := by
+  obtain ⟨c', hb, hok, rfl⟩ := planStep_avx_ok h
+  have hci : CacheInvFull ty (s.cache inverse) := by cases inverse; exact hf; exact hi
+  obtain ⟨h1, _, h3⟩ := avxPlanAndConstruct_full ty avx2 _ _ len t c' hci hb
+  refine ⟨h1, hok, ?_, ?_⟩
+  · cases inverse
+    · exact h3
+    · exact hf
+  · cases inverse
+    · exact hi
+    · exact h3
+
+/-- AVX totality of a request: from a state satisfying the full invariant `plan_fft` never fails — neither planning,
+nor construction, nor any constructor assert of the returned instance -/
+theorem planStep_avx_total (ty : ElemTy) (avx2 : Bool) (s : PlannerState) (hf : CacheInvFull ty s.fwd)
+    (hi : CacheInvFull ty s.inv) (len : Nat) (inverse : Bool) :
+    ∃ t s', planStep (.avx avx2) ty s len inverse = .ok (t, s') := by
+  have hci : CacheInvFull ty (s.cache inverse) := by cases inverse; exact hf; exact hi
+  obtain ⟨f, hfuel⟩ : ∃ f, planFuel len = f + 2 := ⟨planFuel len - 2, by have := planFuel_ge len; omega⟩
+  obtain ⟨r, c', h1, _, _⟩ := avxConstruct_any ty avx2 f (s.cache inverse) len hci.toLen
+  rw [← hfuel] at h1
+  obtain ⟨_, ⟨sp, hsp⟩, _⟩ := avxPlanAndConstruct_full ty avx2 _ _ len r c' hci h1
+  exact ⟨r, s.setCache inverse c', by simp only [planStep, h1, hsp]⟩
+
 /-- one step of any planner kind keeps the kind's invariant and returns a constructible tree of the requested
 length -/
 theorem planStep_stateInv (kind : PlannerKind) (ty : ElemTy) (s s' : PlannerState) (len : Nat) (inverse : Bool)
@@ -691,7 +1068,7 @@ theorem planStep_stateInv (kind : PlannerKind) (ty : ElemTy) (s s' : PlannerStat
     obtain ⟨h1, h2, h3, h4, _⟩ := planStep_of_build hs.1 hs.2 (planSse_len hr) hb
     exact ⟨h1, h2, h3, h4⟩
   | avx avx2 =>
-    obtain ⟨h1, h2, h3, h4, _⟩ := planStep_avx_post hs.1 hs.2 h
+    obtain ⟨h1, h2, h3, h4⟩ := planStep_avx_full hs.1 hs.2 h
     exact ⟨h1, h2, h3, h4⟩
 
 /-- a whole history, from any state satisfying the invariant -/
@@ -721,5 +1098,135 @@ theorem planHistory_stateInv (kind : PlannerKind) (ty : ElemTy) :
         obtain ⟨h1, h2, h3⟩ := planStep_stateInv kind ty s s1 len inv inst hs hstep
         obtain ⟨h4, h5⟩ := ih s1 insts s' h3 hrest
         exact ⟨.cons ⟨h1, h2⟩ h4, h5⟩
+
+/-! ### direction separation, cache hits, stability -/
+
+/-- a kind is one of the two portable-recipe planners -/
+def PlannerKind.usesRecipes : PlannerKind → Bool
+  | .avx _ => false
+  | _ => true
+
+theorem planStep_other (kind : PlannerKind) (ty : ElemTy) (s s' : PlannerState) (len : Nat) (inverse : Bool)
+    (t : Recipe) (h : planStep kind ty s len inverse = .ok (t, s')) :
+    s'.cache (!inverse) = s.cache (!inverse) := by
+  cases kind with
+  | scalar => obtain ⟨r, c', _, _, rfl⟩ := planStep_scalar_ok h; exact PlannerState.cache_setCache_not _ _ _
+  | sse => obtain ⟨r, c', _, _, rfl⟩ := planStep_sse_ok h; exact PlannerState.cache_setCache_not _ _ _
+  | avx avx2 => obtain ⟨c', _, _, rfl⟩ := planStep_avx_ok h; exact PlannerState.cache_setCache_not _ _ _
+
+/-- a request whose `(len, direction)` is cached returns the cached instance and leaves the state as it is
+(AVX: provided the cached instance passes the constructor asserts `planStep` re-checks) -/
+theorem planStep_hit (kind : PlannerKind) (ty : ElemTy) (s : PlannerState) (len : Nat) (inverse : Bool) (t : Recipe)
+    (hg : (s.cache inverse).get? len = some t) (hok : t.Constructible ty) :
+    planStep kind ty s len inverse = .ok (t, s) := by
+  cases kind with
+  | scalar =>
+    obtain ⟨r, hr, hl⟩ := planScalar_ok len
+    have hb := buildFft_hit ty (s.cache inverse) r t (by rw [hl]; exact hg)
+    simp only [planStep, hr, hb, PlannerState.setCache_cache]
+  | sse =>
+    obtain ⟨r, hr, hl⟩ := planSse_ok len
+    have hb := buildFft_hit ty (s.cache inverse) r t (by rw [hl]; exact hg)
+    simp only [planStep, hr, hb, PlannerState.setCache_cache]
+  | avx avx2 =>
+    obtain ⟨sp, hsp⟩ := hok
+    have hf : planFuel len = (4 * len + 63) + 1 := by unfold planFuel; omega
+    have hb := avxPlanAndConstruct_hit ty avx2 (4 * len + 63) (s.cache inverse) len t hg
+    simp only [planStep, hf, hb, hsp, PlannerState.setCache_cache]
+
+/-- after a successful request the returned instance is the one cached for `(len, direction)` -/
+theorem planStep_cached (kind : PlannerKind) (ty : ElemTy) (s s' : PlannerState) (len : Nat) (inverse : Bool)
+    (t : Recipe) (hs : StateInv kind ty s) (h : planStep kind ty s len inverse = .ok (t, s')) :
+    (s'.cache inverse).get? len = some t := by
+  cases kind with
+  | scalar =>
+    obtain ⟨r, c', hr, hb, rfl⟩ := planStep_scalar_ok h
+    obtain ⟨_, _, _, _, h5, h6, _⟩ := planStep_of_build hs.1 hs.2 (planScalar_len hr) hb
+    rw [h5]; exact h6
+  | sse =>
+    obtain ⟨r, c', hr, hb, rfl⟩ := planStep_sse_ok h
+    obtain ⟨_, _, _, _, h5, h6, _⟩ := planStep_of_build hs.1 hs.2 (planSse_len hr) hb
+    rw [h5]; exact h6
+  | avx avx2 => exact (planStep_avx_post hs.1.toLen hs.2.toLen h).2.2.2.2.2
+
+/-- scalar / SSE: a request never replaces an instance that is already cached, in either direction -/
+theorem planStep_stable (kind : PlannerKind) (hk : kind.usesRecipes = true) (ty : ElemTy) (s s' : PlannerState)
+    (len : Nat) (inverse : Bool) (t : Recipe) (hs : StateInv kind ty s)
+    (h : planStep kind ty s len inverse = .ok (t, s')) (b : Bool) (k : Nat) (t0 : Recipe)
+    (hg : (s.cache b).get? k = some t0) : (s'.cache b).get? k = some t0 := by
+  by_cases hb : b = inverse
+  · subst hb
+    cases kind with
+    | scalar =>
+      obtain ⟨r, c', hr, hb, rfl⟩ := planStep_scalar_ok h
+      obtain ⟨_, _, _, _, h5, _, _, h8⟩ := planStep_of_build hs.1 hs.2 (planScalar_len hr) hb
+      rw [h5]; exact h8 k t0 hg
+    | sse =>
+      obtain ⟨r, c', hr, hb, rfl⟩ := planStep_sse_ok h
+      obtain ⟨_, _, _, _, h5, _, _, h8⟩ := planStep_of_build hs.1 hs.2 (planSse_len hr) hb
+      rw [h5]; exact h8 k t0 hg
+    | avx avx2 => cases hk
+  · have hb' : b = !inverse := by cases b <;> cases inverse <;> simp_all
+    rw [hb'] at hg ⊢
+    rw [planStep_other kind ty s s' len inverse t h]; exact hg
+
+theorem planHistory_stable (kind : PlannerKind) (hk : kind.usesRecipes = true) (ty : ElemTy) :
+    ∀ (reqs : List (Nat × Bool)) (s : PlannerState) (ts : List Recipe) (s' : PlannerState),
+      StateInv kind ty s → planHistory kind ty reqs s = .ok (ts, s') →
+      ∀ (b : Bool) (k : Nat) (t0 : Recipe), (s.cache b).get? k = some t0 → (s'.cache b).get? k = some t0 := by
+  intro reqs
+  induction reqs with
+  | nil =>
+    intro s ts s' _ h b k t0 hg
+    simp only [planHistory] at h
+    cases h
+    exact hg
+  | cons rq rest ih =>
+    intro s ts s' hs h b k t0 hg
+    obtain ⟨len, inv⟩ := rq
+    simp only [planHistory] at h
+    split at h
+    · cases h
+    · rename_i inst s1 hstep
+      split at h
+      · cases h
+      · rename_i insts s2 hrest
+        cases h
+        obtain ⟨_, _, h3⟩ := planStep_stateInv kind ty s s1 len inv inst hs hstep
+        exact ih s1 insts s' h3 hrest b k t0 (planStep_stable kind hk ty s s1 len inv inst hs hstep b k t0 hg)
+
+/-- every cache only hands out constructible instances filed under their length -/
+theorem StateInv.constructible {kind : PlannerKind} {ty : ElemTy} {s : PlannerState}
+    (hs : StateInv kind ty s) (b : Bool) (k : Nat) (t : Recipe) (hg : (s.cache b).get? k = some t) :
+    t.len = k ∧ t.Constructible ty := by
+  cases kind with
+  | scalar => cases b; exact hs.1 k t hg; exact hs.2 k t hg
+  | sse => cases b; exact hs.1 k t hg; exact hs.2 k t hg
+  | avx avx2 => cases b; exact hs.1.toSpec k t hg; exact hs.2.toSpec k t hg
+
+theorem forall₂_index {α β : Type} {R : α → β → Prop} {l₁ : List α} {l₂ : List β} (h : List.Forall₂ R l₁ l₂) :
+    ∃ hlen : l₁.length = l₂.length, ∀ i (hi : i < l₂.length), R (l₁[i]'(hlen ▸ hi)) l₂[i] := by
+  induction h with
+  | nil => exact ⟨rfl, fun i hi => by simp at hi⟩
+  | cons hab _ ih =>
+    obtain ⟨hlen, hall⟩ := ih
+    refine ⟨by simp [hlen], fun i hi => ?_⟩
+    cases i with
+    | zero => exact hab
+    | succ i => exact hall i (by simpa using hi)
+
+/-- AVX: a whole history never fails -/
+theorem planHistory_avx_total_aux (ty : ElemTy) (avx2 : Bool) : ∀ (reqs : List (Nat × Bool)) (s : PlannerState),
+    StateInv (.avx avx2) ty s → ∃ ts s', planHistory (.avx avx2) ty reqs s = .ok (ts, s') := by
+  intro reqs
+  induction reqs with
+  | nil => intro s _; exact ⟨[], s, rfl⟩
+  | cons rq rest ih =>
+    intro s hs
+    obtain ⟨len, inv⟩ := rq
+    obtain ⟨t, s1, h1⟩ := planStep_avx_total ty avx2 s hs.1 hs.2 len inv
+    obtain ⟨_, _, hs1⟩ := planStep_stateInv (.avx avx2) ty s s1 len inv t hs h1
+    obtain ⟨ts, s2, h2⟩ := ih s1 hs1
+    exact ⟨t :: ts, s2, by simp only [planHistory, h1, h2]⟩
 
 end RFV
